@@ -1310,6 +1310,7 @@ static inline void myth_entry_point_cleanup(myth_thread_t this_thread) {
   env->prof_data.ep_pop += t1 - t0;
 #endif
   if (next){
+    next->env = env;
 #if MYTH_EP_PROF_DETAIL
     env->prof_data.ep_d_tmp=myth_get_rdtsc();
 #endif
